@@ -294,6 +294,9 @@ def equal(a, b):
 
 def compare(op, a, b):
     """op is an ast cmpop *type*."""
+    if hasattr(a, "compare_hook") or hasattr(b, "compare_hook"):
+        # value classes with their own order (e.g. extended reals in contracts/krylov.py)
+        return (a if hasattr(a, "compare_hook") else b).compare_hook(op, a, b)
     if op is ast.Eq:
         return equal(a, b)
     if op is ast.NotEq:
